@@ -15,10 +15,11 @@ import (
 // C15: token bucket filter. See DESIGN.md §3 C15 for the soundness argument of the window rule.
 
 type tstep struct {
-	GapUs    int `json:"gap_us"`
-	Size     int `json:"size"`
-	SetRate  int `json:"set_rate,omitempty"`
-	SetBurst int `json:"set_burst,omitempty"`
+	GapUs    int  `json:"gap_us"`
+	Size     int  `json:"size"`
+	SetRate  int  `json:"set_rate,omitempty"`
+	SetBurst int  `json:"set_burst,omitempty"`
+	NoSend   bool `json:"no_send,omitempty"` // only wait and apply SetRate: no datagram is handed in
 }
 
 type tcase struct {
@@ -75,6 +76,26 @@ func genTBFCase(rng *rand.Rand, multi bool) tcase {
 		c.Steps = append(c.Steps, st)
 		for i := 1; i < k; i++ {
 			c.Steps = append(c.Steps, tstep{GapUs: []int{0, 0, 0, 300, 3000}[rng.Intn(5)], Size: size()})
+		}
+		if refillUs := c.Burst * 8 * 1000 / (c.Rate / 1000); !multi && refillUs >= 10000 && rng.Intn(3) == 0 {
+			// rate set during an idle gap with a backlog queued: drain the bucket and leave a backlog, stay idle for less
+			// than the time the bucket needs to fill up (so that the clamp at the burst cannot hide extra credit), call
+			// Set(TBFRate) once or twice inside the gap (same or another rate), then one small arrival triggers the drain
+			tot := 0
+			for tot < c.Burst+min(c.Queue, c.Burst)*3/4 {
+				c.Steps = append(c.Steps, tstep{GapUs: 0, Size: min(1400, c.Burst)})
+				tot += min(1400, c.Burst)
+			}
+			g := refillUs * (2 + rng.Intn(3)) / 10
+			nset := 1 + rng.Intn(2)
+			for k := 0; k < nset; k++ {
+				sr := c.Rate
+				if rng.Intn(3) == 0 {
+					sr = c.Rate * 4 / 5
+				}
+				c.Steps = append(c.Steps, tstep{GapUs: g / nset, SetRate: sr, NoSend: true})
+			}
+			c.Steps = append(c.Steps, tstep{GapUs: 0, Size: 10}, tstep{GapUs: refillUs * 2, Size: 10})
 		}
 		if rng.Intn(3) == 0 {
 			// refill-granularity pattern: bucket filled >100ms ago, emptied just before the next refill instant, then hit again just after it
@@ -217,6 +238,7 @@ func runTBFCase(c tcase, r *res.Result) (string, string) {
 		fwdIdx [2]int
 	}
 	rate, burst := c.Rate, c.Burst
+	rateHigh := rate
 	var its []iter
 	if !waitParkedTBF(5 * time.Second) {
 		return "", "inconclusive: filter goroutine not parked at start"
@@ -226,7 +248,14 @@ func runTBFCase(c tcase, r *res.Result) (string, string) {
 		if st.SetRate > 0 {
 			f.Set(vnet.TBFRate(st.SetRate))
 			rate = st.SetRate
+			if rate > rateHigh {
+				rateHigh = rate
+			}
 			r.Count("runtime_rate_changes", 1)
+		}
+		if st.NoSend {
+			r.Count("rate_set_while_idle_with_backlog_steps", 1)
+			return true
 		}
 		if st.SetBurst > 0 {
 			f.Set(vnet.TBFMaxBurst(st.SetBurst))
@@ -241,7 +270,8 @@ func runTBFCase(c tcase, r *res.Result) (string, string) {
 		mu.Lock()
 		lo := len(got)
 		mu.Unlock()
-		it := iter{r: rate, b: burst, ch: ch}
+		it := iter{r: rateHigh, b: burst, ch: ch} // the highest rate in force since the previous arrival
+		rateHigh = rate
 		it.a = time.Now()
 		vnet.VerifInject(f, ch)
 		if !waitParkedTBF(5 * time.Second) {
@@ -271,6 +301,7 @@ func runTBFCase(c tcase, r *res.Result) (string, string) {
 	// flush
 	f.Set(vnet.TBFMaxBurst(1<<30), vnet.TBFRate(1<<40))
 	rate, burst = 1<<40, 1<<30
+	rateHigh = rate
 	time.Sleep(120 * time.Millisecond)
 	for k := 0; k < 2; k++ {
 		if !step(tstep{Size: 0}, true) {
